@@ -41,7 +41,7 @@ ROOT = os.path.dirname(os.path.dirname(os.path.abspath(__file__)))
 FILES = ["adf/ADF_interface.c", "adf/ADF_internals.c", "cgns_io.c"]
 # the mid-level library: only the call sites of cgio_* are rows (the cg_* / cgi_* call graph above them is not modelled)
 FILES_MLL = ["cgnslib.c", "cgns_internals.c"]
-VERSION = "11"
+VERSION = "12"
 
 STATUS_PARAM_NAMES = {"error_return", "err", "error_return_input", "error_ret", "ierr"}
 # system calls (the primitives).  kind 'neg': < 0 is the error; 'count': -1 or a short count is the error
@@ -804,6 +804,12 @@ def src_hash(repo):
     return h.hexdigest()
 
 
+def calls_cgio(n):
+    if n.get("kind") == "CallExpr" and (callee_name(n) or "").startswith("cgio_"):
+        return True
+    return any(calls_cgio(c) for c in kids(n))
+
+
 def analyse(repo, impl):
     protos, fns = {}, []
     for f in FILES:
@@ -839,9 +845,9 @@ def analyse(repo, impl):
             name = fn.get("name")
             if not name or name in defined:
                 continue
+            # (decided on the AST, not on the text: WRITE_PART_1D_DATA and friends hide the cgio_* calls in macros)
             if any(c.get("kind") == "CompoundStmt" for c in kids(fn)) and re.search(r"\b%s\s*\(" % re.escape(name), src) \
-                    and re.search(r"\bcgio_\w+\s*\(", src[(loc_off((fn.get("range") or {}).get("begin")) or [0])[0] or 0:
-                                                            ((loc_off((fn.get("range") or {}).get("end")) or [0])[0] or 0) + 1]):
+                    and calls_cgio(fn):
                 fns.append((f, fn, lines))
     out = []
     for i, (f, fn, lines) in enumerate(fns):
